@@ -274,7 +274,7 @@ fn ctx(case: &Case) -> String {
     format!(
         "{} vs peer writing {} on a {:?} stream ({}{}), fault {:?}",
         if case.me == Endpoint::Server { "server" } else { "client" },
-        hex(&case.bytes),
+        if case.bytes.len() > 64 { format!("{}... ({} bytes)", hex(&case.bytes[..48]), case.bytes.len()) } else { hex(&case.bytes) },
         case.kind,
         if case.per_byte { "one byte per read" } else { "whole" },
         if case.fin { ", then FIN" } else { ", left open" },
@@ -291,6 +291,9 @@ pub fn judge(case: &Case, o: &Outcome) -> Vec<(String, String)> {
             format!("C06:{role}:panic@{}:{:?}", explore::panics::short_loc(p), case.kind),
             format!("{c}: task {t} panicked: {p}"),
         ));
+    }
+    if !o.panics.is_empty() {
+        return out; // a task that panicked stays at its stage: not a second finding
     }
     if o.horizon {
         out.push((format!("C06:{role}:livelock:{:?}", case.kind), format!("{c}: still runnable after {HORIZON} polls")));
@@ -410,6 +413,16 @@ fn grammar_strings(thorough: bool) -> Vec<(StreamKind, Endpoint, Vec<u8>)> {
         out.push((StreamKind::Request, me, rf::frame(rf::HEADERS, &[0x01, 0x00, 0xd1])));
         out.push((StreamKind::Request, me, rf::frame(rf::HEADERS, &[0x00, 0x00, 0xff, 0xff])));
         out.push((StreamKind::Request, me, rf::frame(rf::HEADERS, &[])));
+        // Huffman-coded values made of one-bits only (padding of every length, EOS, bits after EOS), after a
+        // valid head prefix and alone
+        for n in 1..=9usize {
+            let mut sec = vec![0x00, 0x00, 0x51, 0x80 | n as u8];
+            sec.extend(std::iter::repeat(0xff).take(n));
+            out.push((StreamKind::Request, me, rf::frame(rf::HEADERS, &sec)));
+            let mut sec2 = vec![0x00, 0x00, 0x28 | 0x01, 0xff, 0x80 | n as u8]; // Huffman literal NAME too
+            sec2.extend(std::iter::repeat(0xff).take(n));
+            out.push((StreamKind::Request, me, rf::frame(rf::HEADERS, &sec2)));
+        }
         // WebTransport bidi signal on a request stream
         out.push((StreamKind::Request, me, vec![0x40, 0x41, 0x00, 0xde, 0xad]));
         out.push((StreamKind::Request, me, vec![0x40, 0x41, 0x40]));
@@ -436,13 +449,77 @@ fn grammar_strings(thorough: bool) -> Vec<(StreamKind, Endpoint, Vec<u8>)> {
     out
 }
 
+/// (c) inputs at the size limits of the data structures behind the API: field sections with N field lines for N
+/// around the capacity limits of http::HeaderMap (24576 = 3/4 of 32768 slots, 32768 entries), as duplicates of one
+/// indexed line and as distinct literal names, as message head and as trailers; frames of every kind with declared
+/// lengths 2^32-1, 2^32 and 2^62-1 followed by three bytes.
+fn size_extremes(thorough: bool) -> Vec<(StreamKind, Endpoint, Vec<u8>)> {
+    let mut out = Vec::new();
+    let v = |x: u64| refimpl::varint::encode(x).unwrap();
+    let frame = |ty: u64, payload: &[u8]| {
+        let mut b = v(ty);
+        b.extend(v(payload.len() as u64));
+        b.extend_from_slice(payload);
+        b
+    };
+    let counts: Vec<usize> = if thorough { vec![24_575, 24_576, 24_577, 32_767, 32_768, 32_769, 70_000] } else { vec![24_576, 24_577, 32_768, 32_769] };
+    for (me, head) in [(Endpoint::Server, REQ_SECTION), (Endpoint::Client, RESP_SECTION)] {
+        for &n in &counts {
+            // n duplicates of one indexed static line (accept-encoding: gzip, deflate, br)
+            let mut dup = head.to_vec();
+            dup.extend(std::iter::repeat(0xdf).take(n));
+            // n distinct literal names: 0x24 <4 bytes> 0x00 (empty value)
+            let mut distinct = head.to_vec();
+            for i in 0..n {
+                distinct.push(0x24);
+                let mut k = i;
+                for _ in 0..4 {
+                    distinct.push(b'a' + (k % 26) as u8);
+                    k /= 26;
+                }
+                distinct.push(0x00);
+            }
+            for section in [dup, distinct] {
+                out.push((StreamKind::Request, me, frame(rf::HEADERS, &section)));
+                // the same as trailers of an otherwise fine message
+                let mut t = frame(rf::HEADERS, head);
+                t.extend(frame(rf::DATA, b"xy"));
+                let mut tsec = vec![0x00, 0x00];
+                tsec.extend_from_slice(&section[head.len()..]);
+                t.extend(frame(rf::HEADERS, &tsec));
+                out.push((StreamKind::Request, me, t));
+            }
+        }
+        for len in [(1u64 << 32) - 1, 1 << 32, (1 << 62) - 1] {
+            for ty in [rf::DATA, rf::HEADERS, 0x21, rf::PUSH_PROMISE, rf::GOAWAY] {
+                for after_head in [false, true] {
+                    let mut b = if after_head { frame(rf::HEADERS, head) } else { Vec::new() };
+                    b.extend(v(ty));
+                    b.extend(v(len));
+                    b.extend_from_slice(&[0x00, 0x01, 0x02]);
+                    out.push((StreamKind::Request, me, b));
+                }
+            }
+            for ty in [rf::SETTINGS, rf::GOAWAY, rf::MAX_PUSH_ID, rf::CANCEL_PUSH, 0x21, rf::DATA] {
+                for kind in [StreamKind::ControlAfterSettings, StreamKind::ControlFirst] {
+                    let mut b = v(ty);
+                    b.extend(v(len));
+                    b.extend_from_slice(&[0x00, 0x01, 0x02]);
+                    out.push((kind, me, b));
+                }
+            }
+        }
+    }
+    out
+}
+
 pub fn run(args: &Args) -> i32 {
     let thorough = args.tier == Tier::Thorough;
     let mut rep = Report::new("C06", args.tier, args.seed, "model_checking");
     rep.exhaustive = true;
     let l = if thorough { 3 } else { 2 };
     rep.rule = format!(
-        "(a) every byte string of length <= {l} on each of 8 stream kinds (request, control after SETTINGS, control as first bytes, QPACK encoder, QPACK decoder, push, WebTransport uni, unknown) x role x delivery (whole, one byte per read) x (FIN, left open){}; (b) grammar strings (request-stream sequences of <= {} frames over the C03 alphabet, control-stream sequences over the C04 alphabet, malformed/invalid field sections, WebTransport signal) x one fault of {{FIN, RESET, STOP_SENDING, connection close, transport timeout}} injected at EVERY byte offset x delivery (whole, per byte). Real server / client run the documented call pattern including the sending half. Oracle: no panic in any poll (overflow checks + debug assertions on); at quiescence no call is pending on a finished/reset stream or a dead connection. states = distinct final (transport, observation) fingerprints; non-trivial = cases with a fault or >= 2 bytes.",
+        "(a) every byte string of length <= {l} on each of 8 stream kinds (request, control after SETTINGS, control as first bytes, QPACK encoder, QPACK decoder, push, WebTransport uni, unknown) x role x delivery (whole, one byte per read) x (FIN, left open){}; (b) grammar strings (request-stream sequences of <= {} frames over the C03 alphabet, control-stream sequences over the C04 alphabet, malformed/invalid field sections, WebTransport signal) x one fault of {{FIN, RESET, STOP_SENDING, connection close, transport timeout}} injected at EVERY byte offset x delivery (whole, per byte). (c) size extremes: field sections with N field lines for N around http::HeaderMap's capacity limits (24576/24577, 32768/32769; duplicates of one line and distinct names; as head and as trailers) and frames of every kind with declared lengths 2^32-1, 2^32, 2^62-1. Real server / client run the documented call pattern including the sending half. Oracle: no panic in any poll (overflow checks + debug assertions on); at quiescence no call is pending on a finished/reset stream or a dead connection. states = distinct final (transport, observation) fingerprints; non-trivial = cases with a fault or >= 2 bytes.",
         if thorough { " (length 3: request and control kinds)" } else { "" },
         if thorough { 3 } else { 2 }
     );
@@ -506,6 +583,14 @@ pub fn run(args: &Args) -> i32 {
             }
         }
     }
+    // (c) size extremes: field sections with very many field lines, frames with huge declared lengths
+    let extremes = size_extremes(thorough);
+    let n_extremes = extremes.len();
+    for (kind, me, bytes) in extremes {
+        for fin in [true, false] {
+            cases.push(Case { me, kind, bytes: bytes.clone(), per_byte: false, fault: None, fin });
+        }
+    }
     let seed = args.seed;
     let chunks: Vec<&[Case]> = cases.chunks(512).collect();
     let accs = explore::par::run(&chunks, Acc::new, |_, chunk, acc| {
@@ -533,6 +618,7 @@ pub fn run(args: &Args) -> i32 {
         total.merge(a);
     }
     total.count("cases", cases.len() as u64);
+    total.count("size_extreme_inputs", n_extremes as u64);
     for i in [cases.len() / 7, cases.len() - 300, cases.len() - 1] {
         total.samples.push(json!(ctx(&cases[i])));
     }
